@@ -1,7 +1,8 @@
 #!/bin/bash
 # run every registered thorough check once (long); summary on stdout
 cd "$(dirname "$0")/.."
-for c in $(python3 -c "import json;print(' '.join(x['property_id'] for x in json.load(open('MANIFEST.json'))['checks']))"); do
+# optional arguments: the property ids to run (default: all)
+for c in ${@:-$(python3 -c "import json;print(' '.join(x['property_id'] for x in json.load(open('MANIFEST.json'))['checks']))")}; do
   t0=$(date +%s)
   VERIF_WORKERS=${VERIF_WORKERS:-8} timeout 3600 ./vf check $c --tier thorough --no-verify > /tmp/thorough-$c.log 2>&1
   rc=$?
